@@ -126,6 +126,18 @@ def run(ctx: Ctx):
                           lambda c: f"c14_cmpi_case {coq_bool(c['same'])} {c['pred']}", P.cmpi_holds, None,
                           lambda c, r: (c["ty"], c["pred"]) if r != 0 else None))
 
+    # ---- SelectFoldCmpfPattern: every predicate x fastmath flags x operand order (+ a non-cmpf condition)
+    cases = []
+    for pred in range(16):
+        for flags in (["none", "nnan", "nsz", "both", "fast"] if thorough else
+                      ["both", "fast", rng.choice(["none", "nnan", "nsz"])]):
+            for order in ("same", "swapped", "other"):
+                cases.append({"fmt": rng.choice(["f32", "f64"]), "pred": pred, "flags": flags, "order": order,
+                              "cond": "cmpf"})
+        cases.append({"fmt": "f64", "pred": pred, "flags": "both", "order": "same", "cond": "arg"})
+    specs.append(DiffSpec("select-cmpf-pattern", P.REQ, cases, P.selcmpf_impl, P.selcmpf_coq, P.selcmpf_holds, None,
+                          lambda c, r: (c["pred"], c["flags"], c["order"]) if r != 0 else None))
+
     # ---- (b) float folder
     def fpairs(bound, width, n):
         ps = [(a, b) for a in bound for b in bound]
@@ -179,7 +191,7 @@ def run(ctx: Ctx):
                           lambda c, r: repr(c) if r not in (0, [0, 1]) else None))
 
     # ---- (c) CSE on generated nested programs
-    cse_cases = [CSE.gen_program(rng) for _ in range(600 if thorough else 64)]
+    cse_cases = [CSE.gen_program(rng) for _ in range(600 if thorough else 90)]
     specs.append(DiffSpec("cse-nested-programs", P.REQ, cse_cases, CSE.impl, CSE.coq_expr, CSE.holds, None,
                           CSE.nontrivial))
 
@@ -206,7 +218,7 @@ def run(ctx: Ctx):
 
     ctx.coverage["rule"] = P.__doc__.split("\n\n", 1)[1][:1400]
     ctx.coverage["exhaustive"] = False
-    ctx.coverage["not_covered"] = ("patterns of dialects other than arith/scf/cf; FoldConstsByReassociation / "
-                                   "SelectFoldCmpfPattern (fastmath); vector/tensor constants; shli/shrsi with constant "
+    ctx.coverage["not_covered"] = ("patterns of dialects other than arith/scf/cf; FoldConstsByReassociation "
+                                   "(fastmath reassoc); vector/tensor constants; shli/shrsi with constant "
                                    "shift amounts above 4096 are not fed to constant-fold-interp (the interpreter and the "
                                    "Coq model would iterate / materialise 2^b bits)")
